@@ -679,7 +679,8 @@ func (w *WalletManager) signWitnessTx(password []byte, tx *wire.MsgTx, hashType 
 		}
 
 		scriptFlags := txscript.StandardVerifyFlags
-		if forks.EnforceMASSIP0002WarmUp(cacheMeta[txIn.PreviousOutPoint.Hash].Height) {
+		// the previous transaction has no block while it is unconfirmed
+		if meta := cacheMeta[txIn.PreviousOutPoint.Hash]; meta != nil && forks.EnforceMASSIP0002WarmUp(meta.Height) {
 			scriptFlags |= txscript.ScriptMASSip2
 		}
 		// Either it was already signed or we just signed it.
